@@ -28,6 +28,8 @@ LONG = [1023, 1024, 1025, 1040, 1041, 1368, 65536]
 LIMIT_MS = 15000     # RSA keys with nonsensical private members can keep OpenSSL busy for minutes: such calls are cut off and counted
 READ_ONLY = ("jws.ver", "jws.ver_io", "jws.hdr", "jwe.hdr", "jwe.dec", "jwe.dec_jwk", "jwe.dec_cek", "jwe.dec_cek_io", "jwk.thp",
              "jwk.thp_buf", "jwk.eql", "jwk.prm", "jwk.exc", "ossl.roundtrip", "b64.dec", "b64.dec_load", "b64.enc_dump")
+TOKEN_MEMBERS = ("signatures", "recipients", "protected", "header", "unprotected", "payload", "signature", "encrypted_key",
+                 "ciphertext", "iv", "tag", "aad", "k", "keys")
 JSON_ARGS = ("jws", "sig", "jwk", "jwe", "rcp", "cek", "prv", "pub", "a", "b", "i")
 
 
@@ -39,6 +41,12 @@ def paths_of(v, p, out):
     elif isinstance(v, list):
         for i, x in enumerate(v):
             paths_of(x, p + [i], out)
+
+
+def _at(v, p):
+    for k in p:
+        v = v[k]
+    return v
 
 
 def edit(rng, root):
@@ -55,8 +63,13 @@ def edit(rng, root):
         cur = cur[k]
     last = p[-1]
     old = cur[last]
-    kind = rng.randrange(12)
+    kind = rng.randrange(13)
     subs = [None, True, False, 0, -1, 2 ** 40, 1.5, "", "AAAA", "!!", [], {}, [None], {"a": 1}, [[]], {"keys": []}]
+    if kind == 12:
+        ds = [q for q in [[]] + ps if isinstance(_at(o, q), dict)]
+        if ds:
+            _at(o, rng.choice(ds))[rng.choice(TOKEN_MEMBERS + ("alg", "enc", "zip", "epk", "kty", "crv", "x", "y", "d", "n", "e", "use", "key_ops", "p2c", "p2s"))] = rng.choice(subs)
+        return o
     if kind == 0 and isinstance(cur, dict) and len(p) > 1:
         del cur[last]
     elif kind in (1, 2):
@@ -278,6 +291,23 @@ def run(ctx):
                 ops.append((o, dict(rest, _leakcheck=True, _limit_ms=LIMIT_MS, **r2)))
                 nb += 1
     ctx.count("boundary-length mutants", nb)
+    # directed stream: every JOSE member name a token / template / recipient / content-key argument does not have yet,
+    # added with an empty array, an empty object, empty text, a number and [{}] (edits above only change what is there)
+    na = 0
+    for o, a in bs:
+        rest = {k: v for k, v in a.items() if k not in JSON_ARGS}
+        for arg in ("jws", "sig", "jwe", "rcp", "cek"):
+            if not isinstance(a.get(arg), dict):
+                continue
+            for name in TOKEN_MEMBERS:
+                if name in a[arg]:
+                    continue
+                for val in ([], {}, "", 0, [{}]):
+                    root = {k: copy.deepcopy(v) for k, v in a.items() if k in JSON_ARGS}
+                    root[arg][name] = val
+                    ops.append((o, dict(rest, _leakcheck=True, _limit_ms=LIMIT_MS, **root)))
+                    na += 1
+    ctx.count("member-added mutants", na)
     pool = K.pool(ctx.jose)
     privs = {json.dumps({m: k.get(m) for m in RSA_PRIV}, sort_keys=True) for k in pool.values() if k.get("kty") == "RSA"}
     only_real = [x for x in ops if model_scope(x[0], x[1], privs)]
